@@ -113,7 +113,8 @@ def execute(case):
         # the colour alternates are exported glyphs too: '<glyph>.<layer>' draws the layer's glyph, its components resolved
         # inside the layer, with the layer glyph's own advance and no code point
         for lname, lglyphs in case["ufo"]["layers"].items():
-            todo = [n for n in lglyphs if n in case["ufo"]["glyphs"]]
+            # (a glyph that is not exported has no colour alternates either)
+            todo = [n for n in lglyphs if n in case["ufo"]["glyphs"] and n not in rec["opts"]["skip"]]
             seen = set()
             while todo:
                 n = todo.pop()
